@@ -791,7 +791,10 @@ def proj_scan_c18(line):
 
 PROPS = {
     "C06": {"uses_genconsts": True, "trusted_extra": ["database/sql convertAssign for int64 / NULL sources specified in coq/Model/Scan.v (conv), validated by this run"],
-            "runs": [{"kind": "scan", "n": {"quick": 5000, "thorough": 200000}, "oracle_props": ["C06"]}]},
+            "runs": [{"kind": "scan", "n": {"quick": 5000, "thorough": 200000}, "oracle_props": ["C06"]},
+                     # operation sequences on one Iterator (several Gets per row, plain columns of odd Go types next to the
+                     # generated ones): what Get stores
+                     iter_run_spec(proj_iter_full, ["C06"], nq=1500, nt=50000)]},
     "C17": {"uses_genconsts": True, "trusted_extra": ["SQLite 3 via github.com/mattn/go-sqlite3 v1.14.16 (cgo): the engine the round trips run on"],
             "runs": [{"kind": "sqlite", "n": {"quick": 400, "thorough": 20000}, "oracle_props": ["C17"]},
                      # the statement that is executed is the one generated for the call's arguments, also under concurrent use
